@@ -487,6 +487,21 @@ def recv_oracle(run, case, props, wf):
             if last_id is not None and rid <= last_id and legal_state:
                 run.violation('order:not-increasing %d after %d' % (rid, last_id), 'returned id %d after %d' % (rid, last_id), summary)
         last_id = rid
+    if 'C06' in props and not cfg['balance']:
+        # no lost registration (deadlock freedom of the receiver): a source is outside the poller exactly while it holds a
+        # complete set; a source that was reset but not re-registered would never be read again
+        for k, it in enumerate(case['items']):
+            dig = it[2]
+            if not dig:
+                continue
+            for i, sd in enumerate(dig[1]):
+                rec, reg = sd[2], sd[3]
+                complete = rec is not None and all(v is not None for _, v in rec)
+                if reg == complete:
+                    run.violation('receiver:lost-registration src=%d registered=%s complete=%s' % (i, reg, complete),
+                                  'after item %d source %d is %s the poller although its set is %s' % (k, i, 'in' if reg else 'outside', 'complete' if complete else 'not complete'),
+                                  summary)
+                    break
     if props & {'C04', 'C05', 'C06'}:
         for it in case['items']:
             for o in it[1]:
